@@ -884,6 +884,8 @@ def lib_lookup(I, dotted):
         'random.uniform': Builtin('random.uniform', rnd_uniform),
         'random.randrange': Builtin('random.randrange', rnd_randrange),
         'math.sqrt': Builtin('math.sqrt', lambda I_, a, k: Mo.power(I_, a[0], 0.5)),
+        'numpy.sqrt': Builtin('numpy.sqrt', lambda I_, a, k: Mo.power(I_, a[0], 0.5) if not Mo.is_list(a[0]) else _unsup('numpy.sqrt of an array')),
+        'numpy.nan': Mo.Unknown('numpy.nan'),
         'copy.copy': Builtin('copy.copy', copy_copy), 'copy.deepcopy': Builtin('copy.deepcopy', copy_deepcopy),
         'numbers.Integral': TypeTag('Integral'),
         'collections.abc.Callable': TypeTag('Callable'),
